@@ -75,6 +75,8 @@ func init() {
 			a.pickKeysTable()
 			a.headerIsReceived("L.header-raw")
 			a.eventsDelivered("P.events-delivered")
+			a.plaintextProducers("P.unencrypted-flag")
+			a.resendKeepsCopy("S.plaintext-retention")
 			a.c09Forget()
 		})
 }
